@@ -3,17 +3,23 @@
 package interceptor
 
 import (
+	"bytes"
 	"context"
 	"fmt"
 	"sort"
 	"strings"
 
+	commonpb "go.temporal.io/api/common/v1"
+	failurepb "go.temporal.io/api/failure/v1"
+	historypb "go.temporal.io/api/history/v1"
 	"go.temporal.io/server/common/log"
 	"google.golang.org/grpc"
 	"google.golang.org/grpc/metadata"
 	"google.golang.org/protobuf/proto"
 	"google.golang.org/protobuf/reflect/protoreflect"
 
+	common122 "github.com/temporalio/s2s-proxy/proto/1_22/api/common/v1"
+	enums122 "github.com/temporalio/s2s-proxy/proto/1_22/api/enums/v1"
 	"github.com/temporalio/s2s-proxy/vfshared"
 )
 
@@ -135,4 +141,130 @@ func vfMarshal(m proto.Message) []byte {
 		panic(err)
 	}
 	return b
+}
+
+// ---- event blobs that need UTF-8 repair before they can be walked
+
+const (
+	vfRepairPlaceholder = "vfbadQtail"       // what is encoded
+	vfRepairWire        = "vfbad\xfftail"    // what the blob holds after the placeholder byte was overwritten
+	vfRepairExpected    = "vfbad�tail" // what a faithful repair leaves (a one-byte run gives exactly one U+FFFD)
+)
+
+func vfForEachEventBlob(m protoreflect.Message, f func(bm protoreflect.Message)) {
+	m.Range(func(fd protoreflect.FieldDescriptor, v protoreflect.Value) bool {
+		if fd.IsMap() {
+			if fd.MapValue().Message() != nil {
+				v.Map().Range(func(_ protoreflect.MapKey, mv protoreflect.Value) bool { vfForEachEventBlob(mv.Message(), f); return true })
+			}
+			return true
+		}
+		if fd.Message() == nil {
+			return true
+		}
+		if fd.Message().FullName() == "temporal.api.common.v1.DataBlob" {
+			if vfshared.EventBlobFields[string(fd.FullName())] {
+				if fd.IsList() {
+					for i := 0; i < v.List().Len(); i++ {
+						f(v.List().Get(i).Message())
+					}
+				} else {
+					f(v.Message())
+				}
+			}
+			return true
+		}
+		if fd.IsList() {
+			for i := 0; i < v.List().Len(); i++ {
+				vfForEachEventBlob(v.List().Get(i).Message(), f)
+			}
+		} else {
+			vfForEachEventBlob(v.Message(), f)
+		}
+		return true
+	})
+}
+
+// vfAddFailedEvent appends an ACTIVITY_TASK_FAILED event whose failure message is text to every event blob of m.
+func vfAddFailedEvent(m protoreflect.Message, text string) int {
+	n := 0
+	vfForEachEventBlob(m, func(bm protoreflect.Message) {
+		evs, err := vfshared.DecodeEvents(bm.Interface().(*commonpb.DataBlob))
+		if err != nil || len(evs) == 0 {
+			return
+		}
+		failed := &historypb.HistoryEvent{EventId: 98, Attributes: &historypb.HistoryEvent_ActivityTaskFailedEventAttributes{
+			ActivityTaskFailedEventAttributes: &historypb.ActivityTaskFailedEventAttributes{Identity: "worker", Failure: &failurepb.Failure{Message: text, Source: "src"}}}}
+		vfshared.FixEventType(failed)
+		evs = append(evs, failed)
+		bm.Set(bm.Descriptor().Fields().ByName("data"), protoreflect.ValueOfBytes(vfshared.EncodeEvents(evs).Data))
+		n++
+	})
+	return n
+}
+
+// vfReplaceInBlobs overwrites from by to (equal length) inside the bytes of every event blob.
+func vfReplaceInBlobs(m protoreflect.Message, from, to string) int {
+	n := 0
+	vfForEachEventBlob(m, func(bm protoreflect.Message) {
+		df := bm.Descriptor().Fields().ByName("data")
+		data := append([]byte{}, bm.Get(df).Bytes()...)
+		if i := bytes.Index(data, []byte(from)); i >= 0 && len(from) == len(to) {
+			copy(data[i:], to)
+			bm.Set(df, protoreflect.ValueOfBytes(data))
+			n++
+		}
+	})
+	return n
+}
+
+// vfLegacyStable reports whether every event blob of m survives a round trip through the legacy (v1.22) schema: the
+// statement is about messages from an older server, which can only hold what that schema knows.
+func vfLegacyStable(m protoreflect.Message) bool {
+	ok := true
+	vfForEachEventBlob(m, func(bm protoreflect.Message) {
+		blob := bm.Interface().(*commonpb.DataBlob)
+		evs, err := vfshared.DecodeEvents(blob)
+		if err != nil {
+			ok = false
+			return
+		}
+		old, err := gogoSerializer.DeserializeEvents(&common122.DataBlob{EncodingType: enums122.EncodingType(blob.EncodingType.Number()), Data: blob.Data})
+		if err != nil {
+			ok = false
+			return
+		}
+		back, err := gogoSerializer.SerializeEvents(old, enums122.EncodingType(blob.EncodingType.Number()))
+		if err != nil {
+			ok = false
+			return
+		}
+		evs2, err := vfshared.DecodeEvents(&commonpb.DataBlob{EncodingType: blob.EncodingType, Data: back.Data})
+		if err != nil || len(evs) != len(evs2) {
+			ok = false
+			return
+		}
+		for i := range evs {
+			if !proto.Equal(evs[i], evs2[i]) {
+				ok = false
+			}
+		}
+	})
+	return ok
+}
+
+// vfMakeRepairable turns msg into the pair (what enters the proxy, what a faithful proxy treats it as): every event blob
+// gets a failed-activity event whose failure message holds one invalid byte; the reference copy holds U+FFFD instead.
+// blobs == 0: msg has no event blob, or holds something an older server could not have written (not representable in
+// the legacy schema) - the variant does not apply.
+func vfMakeRepairable(msg proto.Message) (wire proto.Message, ref proto.Message, blobs int) {
+	if !vfLegacyStable(msg.ProtoReflect()) {
+		return msg, msg, 0
+	}
+	ref = proto.Clone(msg)
+	vfAddFailedEvent(ref.ProtoReflect(), vfRepairExpected)
+	wire = proto.Clone(msg)
+	vfAddFailedEvent(wire.ProtoReflect(), vfRepairPlaceholder)
+	blobs = vfReplaceInBlobs(wire.ProtoReflect(), vfRepairPlaceholder, vfRepairWire)
+	return wire, ref, blobs
 }
